@@ -1,6 +1,6 @@
 (* C15 - Stack: both code paths produce the documented layout *)
 From Coq Require Import ZArith List Bool Lia ZifyBool.
-From Verif Require Import C15.Model C15.ProofsBase C15.ProofsTensor C15.ProofsDeltas1 C15.ProofsDeltasND.
+From Verif Require Import C15.Model C15.ProofsBase C15.ProofsGen C15.ProofsTensor C15.ProofsDeltas1 C15.ProofsDeltasND.
 Import ListNotations.
 Open Scope Z_scope.
 
@@ -31,7 +31,7 @@ Lemma stack_nd_layout ax ta nT n (X1 : tensor Z) :
       tat R (upd ta t (upd ax (i * F + f) idx)) = tat X1 (upd ta (t * n + i) (upd ax f idx)).
 Proof.
   intros sh1 F Hne Hax Hta Hn HnT HT. set (T1 := nth ta sh1 0) in *.
-  unfold stack_nd. set (ts := map (fun i => slice_axis ta i (nT * n) n X1) (zrange n)).
+  rewrite stack_nd_eq. set (ts := map (fun i => slice_axis ta i (nT * n) n X1) (zrange n)).
   assert (Hu : uniform (tdt X1) (upd ta nT sh1) ts).
   { intros t Ht. unfold ts in Ht. apply in_map_iff in Ht as (i & <- & Hi). apply in_zrange in Hi.
     split; [reflexivity|]. unfold slice_axis; cbn [tsh]. fold sh1. fold T1.
@@ -185,7 +185,7 @@ Lemma stack_pad_step c X ta :
     forall idx, (ta < length idx)%nat -> 0 <= nth ta idx 0 < stack_T1 c T ->
       tat X1 idx = stack_src c X ta idx.
 Proof.
-  intros sh T n Hta Hn HT. unfold stack_pad, stack_T1, stack_src. fold n. fold sh. fold T.
+  intros sh T n Hta Hn HT. rewrite stack_pad_eq by assumption. unfold stack_T1, stack_src. fold n. fold sh. fold T.
   pose proof (Z.mod_pos_bound T n ltac:(lia)) as Hm.
   destruct (spad c) as [m|].
   - destruct (T mod n =? 0) eqn:E.
@@ -229,7 +229,7 @@ Proof.
   destruct (stack_T1_bounds c T Hn HT) as [HT1 _]. set (T1 := stack_T1 c T) in *.
   assert (HnT : 0 <= nT) by (apply Z.div_pos; lia).
   assert (HT2 : nT * n <= T1) by (unfold nT; rewrite Z.mul_comm; apply Z.mul_div_le; lia).
-  unfold stack_apply. fold sh. fold nd.
+  rewrite stack_apply_eq by assumption. cbv zeta. fold sh. fold nd.
   destruct (Nat.eqb nd 0) eqn:E0; [apply Nat.eqb_eq in E0; contradiction|].
   fold ax. fold ta.
   destruct (Nat.eqb ax ta) eqn:E1; [apply Nat.eqb_eq in E1; contradiction|].
@@ -273,8 +273,11 @@ Lemma stack_same_axes_error_l c X axis :
   nd <> O -> mod_axis axis nd = mod_axis (time_axis c) nd ->
   stack_apply c X axis = Err ERuntime.
 Proof.
-  intros nd Hnd H. unfold stack_apply. fold nd.
+  intros nd Hnd H. unfold stack_apply. cbv zeta. fold nd.
   destruct (Nat.eqb nd 0) eqn:E0; [apply Nat.eqb_eq in E0; contradiction|].
+  replace (stack_axis axis nd) with (mod_axis axis nd) by (symmetry; now apply stack_axis_eq).
+  replace (stack_time (time_axis c) nd) with (mod_axis (time_axis c) nd)
+    by (symmetry; now apply stack_time_eq).
   rewrite H, Nat.eqb_refl. reflexivity.
 Qed.
 
